@@ -30,6 +30,8 @@ var countCmd = &cobra.Command{
 		dependence := countCmdConfig.DependencePath
 		file := cmd_util.ReadFile(dependence)
 
+		// the decoder fills what is already there: start from an empty model
+		cparsedDeps = nil
 		_ = json.Unmarshal(file, &cparsedDeps)
 
 		callMap := count.BuildCallMap(cparsedDeps)
